@@ -240,3 +240,13 @@ void g_hash_table_iter_remove(GHashTableIter *iter) {
 	VIter *it = (VIter *)iter;
 	if (it->pos >= 0 && it->pos < VERIF_HCAP) it->t->used[it->pos] = FALSE;
 }
+
+/* model API for harness state builders: a GArray over a caller-provided (typed) block */
+GArray *verif_garray_wrap(void *data, guint esize, guint cap) {
+	VArray *a = malloc(sizeof(VArray));
+	a->pub.data = data;
+	a->pub.len = 0;
+	a->esize = esize;
+	a->cap = cap;
+	return &a->pub;
+}
